@@ -81,3 +81,94 @@ package dagsync
 //@   loop 2: invariant chansNot(outEventsChans, s.inEvents) && chansDistinct(outEventsChans) && rangeindex < len(outEventsChans) && forall(a, 0, len(outEventsChans), outEventsChans[a] != nil) && forall(a, 0, rangeindex + 1, closed(outEventsChans[a])) && forall(a, rangeindex + 1, len(outEventsChans), !closed(outEventsChans[a]))
 //@   loop 3: invariant subOK(s) && chansNot(outEventsChans, s.inEvents) && chansOpen(outEventsChans) && chansDistinct(outEventsChans) && rangeindex < len(outEventsChans)
 //@   loop 4: invariant subOK(s) && chansNot(outEventsChans, s.inEvents) && chansOpen(outEventsChans) && chansDistinct(outEventsChans) && rangeindex < len(outEventsChans) && forall(a, 0, rangeindex + 1, outEventsChans[a] != ch) && !removed && len(outEventsChans) == n0
+
+// ---------------------------------------------------------------------------
+// C01 (decision tables), C04 (failure changes nothing), C15 (explicit-sync protocol), C03 (no sync after a rejected head)
+
+//@ protects Subscriber.expSyncMutex: expSyncClosed
+
+// Syncer is implemented by ipnisync.Syncer (whose GetHead contract is proved there).
+//@ iface Syncer.GetHead
+//@   pure
+//@ iface Syncer.Sync
+//@   pure
+//@ iface Syncer.SameAddrs
+//@   pure
+
+//@ func recursionLimit
+//@   property C01
+//@   pure
+//@   ensures depth < 1 ==> result.mode == 0
+//@   ensures depth >= 1 ==> result.mode == 1 && result.depth == depth
+
+// handle is used here through its contract (its body is C08/C01): any failure is reported as (0, err).
+//@ func (*handler).handle
+//@   property C04 C08 C01
+//@   requires h != nil && h.subscriber != nil && syncer != nil && !held(h.syncMutex)
+//@   ensures result1 != nil ==> result0 == 0
+
+//@ func (*handler).makeSyncer
+//@   nobody
+//@   requires h != nil && h.subscriber != nil
+//@   ensures-assumed result2 == nil ==> result0 != nil && (doUpdate ==> result1 != nil)
+//@   ensures-assumed result2 != nil ==> result0 == nil
+
+//@ func (*Subscriber).getOrCreateHandler
+//@   property C08
+//@   requires subOK(s) && !held(s.handlersMutex)
+//@   modifies mapof(s.handlers), objects(handler)
+//@   ensures result != nil && result.subscriber == s && result.peerID == peerID
+
+//@ func (*Subscriber).GetLatestSync
+//@   nobody
+//@   pure
+
+// SyncAdChain. Decision tables written from the property:
+//   depth limit = the per-call limit if given; else the first-sync depth if there is no
+//                 stop link and one is configured; else the subscriber-wide limit;
+//   stop link   = the explicit stop CID if given; else, unless resync, the latest synced link; else none;
+//   the stop CID handed to the handler is the stop link's CID (undefined if none), the selector is
+//   built from exactly that (depth, stop), the segment size is the per-call one if given;
+//   stop == head => the head is returned and nothing is synced.
+// Failure (C04): any error return happens without recording a latest sync or sending an event,
+// and without extending the peer-store TTL; a head-query error means no handler call (C03).
+// Shutdown protocol (C15): refused when closed; otherwise counted in expSyncWG under the mutex and
+// released on every return.
+//@ func (*Subscriber).SyncAdChain
+//@   property C01 C04 C15 C03
+//@   requires subOK(s) && ctx != nil && !held(s.expSyncMutex) && !held(s.handlersMutex)
+//@   ghost rlScoped := zero("selector.RecursionLimit")
+//@   ghost rlFirst := zero("selector.RecursionLimit")
+//@   ghost latest := zero("ipld.Link")
+//@   ghost headQueried := false
+//@   ghost headFailed := false
+//@   at call recursionLimit#1: assert arg0 == opts.depthLimit
+//@   at call recursionLimit#1: after ghost rlScoped := result
+//@   at call recursionLimit#2: assert arg0 == s.firstSyncDepth
+//@   at call recursionLimit#2: after ghost rlFirst := result
+//@   at call GetLatestSync#1: assert arg1 == peerInfo.ID
+//@   at call GetLatestSync#1: after ghost latest := result
+//@   at call GetHead#1: ghost headQueried := true
+//@   at call GetHead#1: after ghost headFailed := result1 != nil
+//@   at call ExploreRecursiveWithStopNode#1: assert arg0 == ite(opts.depthLimit != 0, rlScoped, ite(stopLnk == nil && s.firstSyncDepth != 0, rlFirst, s.adsDepthLimit))
+//@   at call ExploreRecursiveWithStopNode#1: assert arg1 == s.adsSelectorSeq && arg2 == stopLnk
+//@   at call ExploreRecursiveWithStopNode#1: assert opts.stopAdCid != cid.Undef ==> typeis(stopLnk, "cidlink.Link") && payload(stopLnk) == str(opts.stopAdCid.str)
+//@   at call ExploreRecursiveWithStopNode#1: assert opts.stopAdCid == cid.Undef && opts.resync ==> stopLnk == nil
+//@   at call ExploreRecursiveWithStopNode#1: assert opts.stopAdCid == cid.Undef && !opts.resync ==> stopLnk == latest
+//@   at call ExploreRecursiveWithStopNode#1: after ghost selBuilt := result
+//@   ghost selBuilt := zero("ipld.Node")
+//@   at call handle#1: assert !headFailed && arg2 == nextCid && arg3 == selBuilt && arg4 == syncer && arg5 == opts.blockHook
+//@   at call handle#1: assert arg6 == ite(opts.segDepthLimit != 0, opts.segDepthLimit, s.segDepthLimit)
+//@   at call handle#1: assert ite(stopLnk != nil, str(arg7.str) == payload(stopLnk) && arg7 != nextCid, str(arg7.str) == str(""))
+//@   at call handle#1: assert ite(opts.headAdCid != cid.Undef, nextCid == opts.headAdCid && !headQueried, headQueried)
+//@   at call GetLatestSync#1: after assume result != nil ==> typeis(result, "cidlink.Link")
+//@   assumes str(cid.Undef.str) == str("")
+//@   maypanic
+//@   ensures-local old(s.expSyncClosed) ==> result1 != nil && count("wg.add:expSyncWG") == 0 && count("call:handle") == 0
+//@   ensures-local !old(s.expSyncClosed) ==> count("wg.add:expSyncWG") == 1 && count("wg.done:expSyncWG") == 1
+//@   ensures-local result1 != nil ==> count("call:sendSyncFinishedEvent") == 0 && count("call:updatePeerstore") == 0 && str(result0.str) == str("")
+//@   ensures-local headFailed ==> result1 != nil && count("call:handle") == 0
+//@   ensures-local count("call:handle") <= 1 && count("call:sendSyncFinishedEvent") <= 1
+//@   ensures-local result1 == nil && count("call:handle") == 1 ==> count("call:updatePeerstore") == 1 && (count("call:sendSyncFinishedEvent") == 1 <==> headQueried) && before("call:handle", "call:updatePeerstore")
+//@   ensures-local count("call:sendSyncFinishedEvent") == 1 ==> before("call:handle", "call:sendSyncFinishedEvent") && before("call:updatePeerstore", "call:sendSyncFinishedEvent")
+//@   at call sendSyncFinishedEvent#1: assert arg1 == nextCid && arg2 == syncCount
